@@ -1,7 +1,7 @@
 (* C02 — wire format follows the fixed 7-byte NetQASM command layout.
    RefSpec.v is the frozen reference; Gen_Codec is regenerated from /repo. *)
 From Coq Require Import ZArith List Bool String.
-From NQ Require Import Base.Bits Lang.Codec Lang.RefSpec Proofs.CodecProofs Proofs.RefProofs.
+From NQ Require Import Base.Bits Lang.Codec Lang.RefSpec Proofs.CodecProofs Proofs.RefProofs Proofs.RefBytes.
 From Gen Require Import Gen_Codec.
 Import ListNotations.
 Open Scope Z_scope.
@@ -32,6 +32,31 @@ Proof.
   - unfold row_follows_format in Hf. now rewrite E in Hf.
 Qed.
 
+(* ... and those bytes are, literally: the opcode, then each operand in order
+   (register: bank + 4*index; immediate: the value; integer/address: the four
+   base-256 digits of v mod 2^32, least significant first; entry/slice: address
+   then register bytes), then zeros up to 7 — for ALL in-range operand values *)
+Theorem C02_opcodes_are_bytes :
+  forallb (fun r => (0 <=? r_op r) && (r_op r <? 256)) (gen_vanilla ++ gen_nv ++ gen_reids) = true.
+Proof. vm_compute. reflexivity. Qed.
+
+Theorem C02_literal_bytes :
+  forall t ref, conforms t ref = true ->
+  forall r, In r t -> 0 <= r_op r < 256 ->
+  forall ks ops bs, row_rkinds r = Some ks -> ops_ok ks ops = true ->
+    ref_bytes (r_op r) ks ops = Some bs -> encode_row r ops = bs.
+Proof.
+  intros t ref Hc r Hin Hop ks ops bs Hk Hok Hb.
+  unfold conforms in Hc. apply andb_true_iff in Hc as [Hf _].
+  rewrite forallb_forall in Hf. specialize (Hf r Hin).
+  rewrite (encode_eq_ref r ks ops Hf Hk). now apply ref_encode_bytes.
+Qed.
+
+Example C02_literal_ex :
+  ref_bytes 5 [RReg; REntry] [OReg 3 15; OEntry (-2) 2 1] = Some [5; 63; 254; 255; 255; 255; 6]
+  /\ ops_ok [RReg; REntry] [OReg 3 15; OEntry (-2) 2 1] = true.
+Proof. vm_compute. split; reflexivity. Qed.
+
 (* what the reference says about bytes (general facts, all values) *)
 Theorem C02_little_endian : forall k n N, (k < n)%nat ->
   nth k (to_bytes n N) 0 = (N / 2 ^ (8 * Z.of_nat k)) mod 256.
@@ -57,6 +82,7 @@ Example C02_ex_header :
 Proof. vm_compute. reflexivity. Qed.
 
 Print Assumptions C02_bytes_eq_ref.
+Print Assumptions C02_literal_bytes.
 Print Assumptions C02_conforms_vanilla.
 Print Assumptions C02_little_endian.
 Print Assumptions C02_int32_bytes.
